@@ -233,6 +233,13 @@ def cases(tier):
                     yield {"labels": [f"slot={base}:{slot_name(slot)}", f"payload={pay}", "colliding-sibling"],
                            "payload": _mk(base, [(slot, pay)], "none", {}, collide=True)}
         if base == "b1":
+            # 3.1 single-entry type lists (type: ["string"]) as the notation of every typed schema: names travel another code path
+            for slot in slots:
+                if _collidable(slot) or (slot[0] == "val" and slot[1][-1] == "name"):
+                    for pay in PAYLOADS:
+                        yield {"labels": [f"slot={base}:{slot_name(slot)}", f"payload={pay}", "single-type-lists"],
+                               "payload": dict(_mk(base, [(slot, pay)], "none", {}), type_lists=True)}
+        if base == "b1":
             # a request media type that carries a parameter: the parameter's text is run-time text (the Content-Type that is sent)
             content_slot = next(s_ for s_ in slots if s_[0] == "key" and s_[1][-1] == "content" and "requestBody" in s_[1])
             for stem in ("application/json; profile=pv", "application/vnd.api+json; charset=utf-8; v=1"):
@@ -456,6 +463,14 @@ def _apply_media_stem(doc, stem, suffix):
 def run_case(p):
     if p.get("mode") == "typed-default":
         return _run_typed_default(p)
+    if p.get("type_lists"):
+        def listify(o):
+            if isinstance(o, dict):
+                return {k: ([v] if k == "type" and isinstance(v, str) and v in ("string", "integer", "number", "boolean", "object", "array") else listify(v)) for k, v in o.items()}
+            if isinstance(o, list):
+                return [listify(x) for x in o]
+            return o
+        p = dict(p, hostile=listify(p["hostile"]), twin=listify(p["twin"]))
     if p.get("media_stem"):
         pay = p["slots"][0][1]
         p = dict(p, hostile=copy.deepcopy(p["hostile"]), twin=copy.deepcopy(p["twin"]))
